@@ -124,7 +124,7 @@ func c07Oracle(run *vk.Run, w *SWorld, cfg SCfg, hist []Ev) {
 func TestC07(t *testing.T) {
 	run := vk.NewRun("C07", "model_checking")
 	defer run.Finish()
-	run.SetRule("breadth-first exploration of event histories on the real Syncer + Store with an honest getter whose calls are held: events = deliver honest {next, skip 2, skip 3} | Head() | answer oldest held call {full, prefix of 1, error} | advance 40s; at every quiescent state (no held call, no blocked caller) the store head must equal the highest verified head unless the running attempt was aborted by a getter error, and in every quiescent state one further valid head plus honest answers must complete the sync (recovery probe); distinct = (config, event kinds, error?, behind?)")
+	run.SetRule("breadth-first exploration of event histories on the real Syncer + Store with an honest getter whose calls are held: events = deliver honest {next, skip 2, skip 3} | Head() | answer oldest held call {full, prefix of 1, error; lagging-peers configuration: a trusted-head request answered with the header gossip already delivered or the one above the trusted head} | advance 40s; at every quiescent state (no held call, no blocked caller) the store head must equal the highest verified head unless the running attempt was aborted by a getter error, and in every quiescent state one further valid head plus honest answers must complete the sync (recovery probe); distinct = (config, event kinds, error?, behind?)")
 	run.Assume("event granularity: the bubble runs to quiescence between events")
 
 	var rc sCase
@@ -144,13 +144,21 @@ func TestC07(t *testing.T) {
 	a := evAlpha{Skips: []int{2, 3}, Head: true, Advance: []int{40}, Errors: true, Prefix: true}
 	dl := vk.NewDeadline(vk.Pick(run, 10*time.Minute, 120*time.Minute))
 	cfgs := []SCfg{{N: 14, S: 3, R: 0, Batch: 1, Hold: true}, {N: 14, S: 3, R: 0, Batch: 3, Hold: true}}
+	// stale head and trusted peers whose reported head lags behind gossip: the same head can be learned
+	// twice, by gossip and then by the slow Head() answer
+	lagCfg := SCfg{N: 12, S: 3, NetHead: 3, R: 0, Batch: 1, Hold: true, HeadAgeS: 100, FreshAfterS: true}
+	cfgs = append(cfgs, lagCfg)
 	if run.Thorough() {
 		cfgs = append(cfgs, SCfg{N: 16, S: 3, R: 2, Batch: 2, Hold: true})
 	}
 	states, trans := 0, 0
 	for _, cfg := range cfgs {
 		cfg := cfg
-		r := exploreSync(t, run, "C07", cfg, depth, a, dl, func(w *SWorld, hist []Ev) { c07Oracle(run, w, cfg, hist) })
+		ca := a
+		if cfg.NetHead != 0 {
+			ca = evAlpha{Skips: []int{2}, Head: true, Errors: false, LagHead: true}
+		}
+		r := exploreSync(t, run, "C07", cfg, depth, ca, dl, func(w *SWorld, hist []Ev) { c07Oracle(run, w, cfg, hist) })
 		states += r.States
 		trans += r.Transitions
 		if r.Capped {
